@@ -163,6 +163,193 @@ Proof.
   rewrite (top_scan s Hs _ _ term rest Ht). cbn [length]. f_equal. lia.
 Qed.
 
-(* non-vacuity: `f(a, [b; c]) { d }` followed by `,` *)
+(* non-vacuity: the text "f(a, [b; c]) { d }" followed by a comma *)
 Example scan_example : scan [102; 40; 97; 44; 32; 91; 98; 59; 32; 99; 93; 41; 32; 123; 32; 100; 32; 125; 44; 32; 120] = Stop 18.
+Proof. reflexivity. Qed.
+
+(** * composition: code made of ordinary characters, delimiters and lexical units (literals, comments,
+    lifetimes) ends at the first top-level terminator *)
+Definition skips (u rest : list ch) : Prop :=
+  forall f bal total, code (S f) OPENS CLOSES bal total (u ++ rest) = code f OPENS CLOSES bal total rest.
+
+Lemma skips_string body rest : strbody body -> skips (QUOTE :: body ++ [QUOTE]) rest.
+Proof.
+  intros Hb f bal total. cbn [app code]. change (N.eqb QUOTE QUOTE) with true. cbv iota.
+  rewrite <- app_assoc. cbn [app]. rewrite (skip_string_spec body rest Hb). reflexivity.
+Qed.
+
+Lemma skips_char c rest : c <> BSL -> rest <> [] -> skips [APOS; c; APOS] rest.
+Proof.
+  intros Hc Hr f bal total. cbn [app code]. change (N.eqb APOS QUOTE) with false. change (N.eqb APOS APOS) with true. cbv iota.
+  cbn [skip_char_or_lifetime]. apply N.eqb_neq in Hc. rewrite Hc. change (N.eqb APOS APOS) with true. cbv iota.
+  destruct rest; [congruence|reflexivity].
+Qed.
+
+Lemma until_spec body rest : ~ In APOS body -> rest <> [] ->
+  (fix until (l : list ch) : option (list ch) :=
+     match l with
+     | [] => None
+     | x :: l' => if N.eqb x APOS then (match l' with [] => None | _ => Some l' end) else until l'
+     end) (body ++ APOS :: rest) = Some rest.
+Proof.
+  intros Hb Hr. induction body as [|x body IH]; cbn [app].
+  - change (N.eqb APOS APOS) with true. cbv iota. destruct rest; [congruence|reflexivity].
+  - assert (Hx : N.eqb x APOS = false) by (apply N.eqb_neq; intros E; apply Hb; left; congruence).
+    rewrite Hx. apply IH. intros H. apply Hb. right. exact H.
+Qed.
+
+Lemma skips_escaped_char c body rest : ~ In APOS body -> rest <> [] -> skips (APOS :: BSL :: c :: body ++ [APOS]) rest.
+Proof.
+  intros Hb Hr f bal total. cbn [app code]. change (N.eqb APOS QUOTE) with false. change (N.eqb APOS APOS) with true. cbv iota.
+  cbn [skip_char_or_lifetime]. change (N.eqb BSL BSL) with true. cbv iota.
+  rewrite <- app_assoc. cbn [app]. rewrite (until_spec body rest Hb Hr). reflexivity.
+Qed.
+
+(* a lifetime: the character after the first letter is not an apostrophe *)
+Lemma skips_lifetime c d rest : c <> BSL -> d <> APOS -> skips [APOS; c] (d :: rest).
+Proof.
+  intros Hc Hd f bal total. cbn [app code]. change (N.eqb APOS QUOTE) with false. change (N.eqb APOS APOS) with true. cbv iota.
+  cbn [skip_char_or_lifetime]. apply N.eqb_neq in Hc. apply N.eqb_neq in Hd. rewrite Hc, Hd. reflexivity.
+Qed.
+
+Lemma take_hashes_repeat n : forall k rest, (forall t, rest <> HASH :: t) -> take_hashes (repeat HASH n ++ rest) k = ((k + n)%nat, rest).
+Proof.
+  induction n as [|n IH]; intros k rest Hr; cbn [repeat app].
+  - destruct rest as [|c r]; cbn [take_hashes]; [f_equal; lia|].
+    destruct (N.eqb_spec c HASH) as [->|_]; [exfalso; exact (Hr r eq_refl)|f_equal; lia].
+  - cbn [take_hashes]. change (N.eqb HASH HASH) with true. cbv iota. rewrite IH by exact Hr. f_equal. lia.
+Qed.
+
+Lemma skips_raw n body rest : ~ In QUOTE body ->
+  skips (LR :: repeat HASH n ++ QUOTE :: body ++ QUOTE :: repeat HASH n) rest.
+Proof.
+  intros Hb f bal total. cbn [app code]. change (N.eqb LR QUOTE) with false. change (N.eqb LR APOS) with false.
+  change (N.eqb LR LR) with true. cbv iota.
+  assert (Hhead : exists d t, repeat HASH n ++ QUOTE :: (body ++ QUOTE :: repeat HASH n) ++ rest = d :: t /\ (N.eqb d HASH || N.eqb d QUOTE = true)).
+  { destruct n; cbn [repeat app]; eexists; eexists; split; try reflexivity; reflexivity. }
+  rewrite <- app_assoc. cbn [app].
+  destruct Hhead as (d & t & Eh & Hd). rewrite <- !app_assoc in Eh. cbn [app] in Eh. rewrite <- !app_assoc. cbn [app].
+  rewrite Eh, Hd. rewrite <- Eh.
+  unfold skip_raw_literal. rewrite (take_hashes_repeat n 0); [|intros t0 E; discriminate].
+  cbn [Nat.add]. change (N.eqb QUOTE QUOTE) with true. cbv iota.
+  rewrite (skip_raw_spec n body rest Hb). reflexivity.
+Qed.
+
+Lemma skips_r d rest : N.eqb d HASH = false -> N.eqb d QUOTE = false -> skips [LR] (d :: rest).
+Proof.
+  intros H1 H2 f bal total. cbn [app code]. change (N.eqb LR QUOTE) with false. change (N.eqb LR APOS) with false.
+  change (N.eqb LR LR) with true. cbv iota. rewrite H1, H2. reflexivity.
+Qed.
+
+Lemma skip_line_spec body rest : ~ In NL body -> skip_line (body ++ NL :: rest) = NL :: rest.
+Proof.
+  induction body as [|c b IH]; intros Hb; cbn [app skip_line].
+  - change (N.eqb NL NL) with true. reflexivity.
+  - assert (Hc : N.eqb c NL = false) by (apply N.eqb_neq; intros E; apply Hb; left; congruence).
+    rewrite Hc. apply IH. intros H. apply Hb. right. exact H.
+Qed.
+
+Lemma skips_line_comment body rest : ~ In NL body -> skips (SLASH :: SLASH :: body) (NL :: rest).
+Proof.
+  intros Hb f bal total. cbn [app code]. change (N.eqb SLASH QUOTE) with false. change (N.eqb SLASH APOS) with false.
+  change (N.eqb SLASH LR) with false. change (N.eqb SLASH SLASH) with true. cbv iota.
+  rewrite (skip_line_spec body rest Hb). reflexivity.
+Qed.
+
+Lemma skips_block_comment body rest : cbody body -> skips (SLASH :: STAR :: body ++ [STAR; SLASH]) rest.
+Proof.
+  intros Hb f bal total. cbn [app code]. change (N.eqb SLASH QUOTE) with false. change (N.eqb SLASH APOS) with false.
+  change (N.eqb SLASH LR) with false. change (N.eqb SLASH SLASH) with true. change (N.eqb STAR SLASH) with false.
+  change (N.eqb STAR STAR) with true. cbv iota.
+  rewrite <- app_assoc. cbn [app]. rewrite (skip_block_spec body rest Hb). reflexivity.
+Qed.
+
+Lemma skips_slash d rest : N.eqb d SLASH = false -> N.eqb d STAR = false -> skips [SLASH] (d :: rest).
+Proof.
+  intros H1 H2 f bal total. cbn [app code]. change (N.eqb SLASH QUOTE) with false. change (N.eqb SLASH APOS) with false.
+  change (N.eqb SLASH LR) with false. change (N.eqb SLASH SLASH) with true. cbv iota. rewrite H1, H2. reflexivity.
+Qed.
+
+(* code with units: [ucode inside s rest] -- s is scanned (inside delimiters or at top level) when
+   followed by [rest]; units carry their side conditions on what follows them *)
+Inductive ucode : bool -> list ch -> list ch -> Prop :=
+| uc_nil inside rest : ucode inside [] rest
+| uc_plain inside c s rest : plainb c = true -> ucode inside s rest -> ucode inside (c :: s) rest
+| uc_sep c s rest : c = COMMA \/ c = SEMI -> ucode true s rest -> ucode true (c :: s) rest
+| uc_unit inside u s rest : u <> [] -> skips u (s ++ rest) -> ucode inside s rest -> ucode inside (u ++ s) rest
+| uc_group inside o cl a s rest : mem o OPENS = true -> mem cl CLOSES = true ->
+    ucode true a (cl :: s ++ rest) -> ucode inside s rest -> ucode inside (o :: a ++ cl :: s) rest.
+
+Lemma ucode_inner a rest : ucode true a rest -> forall bal total,
+  exists n, (n <= length a)%nat /\ forall f, code (n + f) OPENS CLOSES (S bal) total (a ++ rest) = code f OPENS CLOSES (S bal) total rest.
+Proof.
+  intros H. remember true as inside eqn:Ei. revert Ei.
+  induction H as [inside rest|inside c s rest Hp _ IH|c s rest Hc _ IH|inside u s rest Hne Hu _ IH|inside o cl a s rest Ho Hcl _ IHa _ IHs];
+    intros Ei bal total.
+  - exists 0%nat. split; [cbn; lia|]. intros f. reflexivity.
+  - destruct (IH Ei bal total) as [n [Hb Hn]]. exists (S n). split; [cbn; lia|]. intros f. cbn [app Nat.add].
+    destruct (plainb_facts c Hp) as (H1 & H2 & H3 & H4 & H5 & H6 & _).
+    rewrite code_step by assumption. rewrite H5, H6. cbn [Nat.ltb Nat.leb]. apply Hn.
+  - destruct (IH eq_refl bal total) as [n [Hb Hn]]. exists (S n). split; [cbn; lia|]. intros f. cbn [app Nat.add].
+    destruct (sep_facts c Hc) as (H1 & H2 & H3 & H4 & H5 & H6).
+    rewrite code_step by assumption. rewrite H5, H6. cbn [Nat.ltb Nat.leb]. apply Hn.
+  - destruct (IH Ei bal total) as [n [Hb Hn]]. exists (S n).
+    split; [rewrite app_length; destruct u; [congruence|cbn; lia]|]. intros f. cbn [Nat.add].
+    rewrite <- app_assoc. rewrite (Hu (n + f)%nat (S bal) total). apply Hn.
+  - destruct (IHs Ei bal total) as [ns [Hbs Hns]]. destruct (IHa eq_refl (S bal) total) as [na [Hba Hna]].
+    exists (S (na + S ns)). split; [cbn [length]; rewrite app_length; cbn [length]; lia|]. intros f. cbn [app Nat.add].
+    destruct (open_facts o Ho) as (H1 & H2 & H3 & H4).
+    rewrite code_step by assumption. rewrite Ho.
+    rewrite <- app_assoc. cbn [app].
+    replace (na + S ns + f)%nat with (na + (S (ns + f)))%nat by lia. rewrite Hna.
+    destruct (close_facts cl Hcl) as (C1 & C2 & C3 & C4 & C5).
+    rewrite code_step by assumption. rewrite C5, Hcl. cbn [Nat.ltb Nat.leb pred]. apply Hns.
+Qed.
+
+Lemma ucode_top s : forall rest0, ucode false s rest0 -> forall term rest total, rest0 = term :: rest -> terminator term ->
+  exists n, (n <= length s)%nat /\ forall f, code (n + S f) OPENS CLOSES 0 total (s ++ term :: rest) = Stop (total - length (term :: rest)).
+Proof.
+  intros rest0 H. remember false as inside eqn:Ei. revert Ei.
+  induction H as [inside rest1|inside c s rest1 Hp _ IH|c s rest1 Hc _ IH|inside u s rest1 Hne Hu _ IH|inside o cl a s rest1 Ho Hcl Ha _ _ IHs];
+    intros Ei term rest total Er Ht; subst.
+  - exists 0%nat. split; [cbn; lia|]. intros f. cbn [app Nat.add].
+    assert (T : N.eqb term QUOTE = false /\ N.eqb term APOS = false /\ N.eqb term LR = false /\ N.eqb term SLASH = false /\ mem term OPENS = false /\
+                (N.eqb term COMMA || N.eqb term SEMI || mem term CLOSES = true)).
+    { destruct Ht as [->|[->|H]]; [repeat split; reflexivity|repeat split; reflexivity|].
+      destruct (close_facts term H) as (C1 & C2 & C3 & C4 & C5). rewrite H, orb_true_r. repeat split; assumption. }
+    destruct T as (H1 & H2 & H3 & H4 & H5 & H6).
+    rewrite code_step by assumption. rewrite H5, H6. reflexivity.
+  - destruct (IH eq_refl term rest total eq_refl Ht) as [n [Hb Hn]]. exists (S n). split; [cbn; lia|]. intros f. cbn [app Nat.add].
+    destruct (plainb_facts c Hp) as (H1 & H2 & H3 & H4 & H5 & H6 & H7 & H8).
+    rewrite code_step by assumption. rewrite H5, H6, H7, H8. cbn [Nat.ltb Nat.leb orb]. apply Hn.
+  - discriminate.
+  - destruct (IH eq_refl term rest total eq_refl Ht) as [n [Hb Hn]]. exists (S n).
+    split; [rewrite app_length; destruct u; [congruence|cbn; lia]|]. intros f. cbn [Nat.add].
+    rewrite <- app_assoc. rewrite (Hu (n + S f)%nat 0%nat total). apply Hn.
+  - destruct (IHs eq_refl term rest total eq_refl Ht) as [ns [Hbs Hns]].
+    destruct (ucode_inner a _ Ha 0%nat total) as [na [Hba Hna]].
+    exists (S (na + S ns)). split; [cbn [length]; rewrite app_length; cbn [length]; lia|]. intros f. cbn [app Nat.add].
+    destruct (open_facts o Ho) as (H1 & H2 & H3 & H4).
+    rewrite code_step by assumption. rewrite Ho.
+    rewrite <- app_assoc. cbn [app].
+    replace (na + S ns + S f)%nat with (na + (S (ns + S f)))%nat by lia. rewrite Hna.
+    destruct (close_facts cl Hcl) as (C1 & C2 & C3 & C4 & C5).
+    rewrite code_step by assumption. rewrite C5, Hcl. cbn [Nat.ltb Nat.leb pred]. apply Hns.
+Qed.
+
+Theorem scan_units s term rest : ucode false s (term :: rest) -> terminator term ->
+  scan (s ++ term :: rest) = Stop (length s).
+Proof.
+  intros Hs Ht. unfold scan.
+  destruct (ucode_top s _ Hs term rest (length (s ++ term :: rest)) eq_refl Ht) as [n [Hb Hn]].
+  rewrite app_length in *. cbn [length] in *.
+  replace (S (length s + S (length rest))) with (n + S (length s + S (length rest) - n))%nat by lia.
+  rewrite Hn. f_equal. lia.
+Qed.
+
+(* non-vacuity: a call whose arguments are a string, a char, a raw string with one hash and an
+   identifier followed by a block comment, each holding a delimiter; then a semicolon *)
+Example units_example :
+  let s := [102; 40; 34; 125; 34; 44; 39; 123; 39; 44; 114; 35; 34; 97; 34; 125; 34; 35; 44; 120; 47; 42; 41; 42; 47; 41] in
+  scan (s ++ [59; 10]) = Stop (length s).
 Proof. reflexivity. Qed.
